@@ -748,7 +748,7 @@ def step (s : St) (line : String) : St × String :=
     | some (c :: cs) => (s, s!"{showC8 (Blocks.averageColor c cs)}\t{impl}\t-")
     | _ => (s, bad)
   | [kind, W, H, hexs, bw, bh, col, row, ww, wh] =>
-    if kind = "halfy" ∨ kind = "fully" ∨ kind = "halfz" ∨ kind = "fullz" then
+    if kind = "halfy" ∨ kind = "fully" ∨ kind = "halfz" ∨ kind = "fullz" ∨ kind = "halfu" ∨ kind = "fullu" ∨ kind = "halfv" ∨ kind = "fullv" ∨ kind = "halfw" ∨ kind = "fullw" then
       -- round 4: `*image.YCbCr` sources (4:4:4 / 4:2:0): the pixel as `color.YCbCr.RGBA()` gives it (16-bit), through
       -- the generic pipeline.  Oracle: the same pixel clause with the 8-bit colour such a pixel has where it is read —
       -- `toRGB` of the 16-bit value for an unscaled image, its high bytes after the scaler's 8-bit storage.
@@ -757,10 +757,15 @@ def step (s : St) (line : String) : St × String :=
         match parsePixels W H hexs with
         | some px0 =>
           let half := kind.startsWith "half"
-          let sub := kind.endsWith "z"
+          -- chroma subsampling: 4:2:0 (z), 4:2:2 (u: horizontally), 4:4:0 (v: vertically); w: an opaque `*image.NRGBA64`
+          -- whose 16-bit channel is the op line's byte (high) and that byte xor 0x5a (low)
+          let sx := if kind.endsWith "z" ∨ kind.endsWith "u" then 2 else 1
+          let sy := if kind.endsWith "z" ∨ kind.endsWith "v" then 2 else 1
+          let wide (b : Nat) : Nat := b * 256 + (b ^^^ 0x5a)
           let at16 (x y : Nat) : C16 :=
             let p := pixAt W H px0 x y
-            let c := if sub then pixAt W H px0 (x - x % 2) (y - y % 2) else p
+            if kind.endsWith "w" then ⟨wide p.r, wide p.g, wide p.b, 0xffff⟩ else
+            let c := pixAt W H px0 (x - x % sx) (y - y % sy)
             c16of (ycbcrRGBA p.r c.g c.b)
           let px16 : Array C16 := Array.ofFn (n := W * H) fun i => at16 (i.val % W) (i.val / W)
           let m := blockModelG half W H px16 bw bh col row ww wh
